@@ -62,7 +62,13 @@ Cases ==
     {[Mk("section", FlatBox, Normals[1], dn, Motions[t]) EXCEPT !.name = "flatbox_tol"] @@ [stol16 |-> 3]
         : dn \in {MinOf(Proj(FlatBox.vpos, Normals[1])) + 1, MaxOf(Proj(FlatBox.vpos, Normals[1])) - 1}, t \in 1..2}
 
-Init == case \in Cases
+\* the same scenes scaled by 2^-10: the plane passes within 4e-4 of vertices and the crossing points around such a vertex
+\* are about 5e-4 apart - still far above the default curve tolerance of 1e-6, so nothing may be merged or dropped
+SmallCases ==
+    UNION {{Mk(op, ms, Normals[j], dn, Motions[t]) @@ [sc |-> -10] : dn \in Offsets(ms.vpos, Normals[j]), op \in {"section", "split"}}
+           : ms \in {m \in Meshes : m.name \in {"box", "tetra"}}, j \in {1, 4, 7}, t \in 1..2}
+
+Init == case \in Cases \cup SmallCases
 Next == UNCHANGED case
 Spec == Init /\ [][Next]_case
 Emit == PrintT(<<"CASE", ToJson(case)>>)
